@@ -224,6 +224,8 @@ macro_rules! impl_cache {
                 if self.is_closed.load(Ordering::SeqCst) {
                     return None;
                 }
+                #[cfg(transparencies_stretto_verif)]
+                crate::verif::yield_point("open_checked");
 
                 let (index, conflict) = self.key_to_hash.build_key(key);
 
@@ -251,6 +253,8 @@ macro_rules! impl_cache {
                 if self.is_closed.load(Ordering::SeqCst) {
                     return None;
                 }
+                #[cfg(transparencies_stretto_verif)]
+                crate::verif::yield_point("open_checked");
 
                 let (index, conflict) = self.key_to_hash.build_key(key);
 
@@ -415,6 +419,8 @@ macro_rules! impl_cache_processor {
                     } => {
                         let cost = self.calculate_internal_cost(cost);
                         let (victim_sets, added) = self.policy.add(key, cost);
+                        #[cfg(transparencies_stretto_verif)]
+                        crate::verif::yield_point("new_store");
                         if added {
                             self.store.try_insert(key, value, conflict, expiration)?;
                             self.track_admission(key);
@@ -430,6 +436,8 @@ macro_rules! impl_cache_processor {
 
                         if let Some(victims) = victim_sets {
                             for victim in victims {
+                                #[cfg(transparencies_stretto_verif)]
+                                crate::verif::yield_point("victim");
                                 let sitem = self.store.try_remove(&victim.key, 0)?;
                                 if let Some(sitem) = sitem {
                                     let item = CrateItem {
@@ -458,6 +466,8 @@ macro_rules! impl_cache_processor {
                     }
                     $item::Delete { key, conflict } => {
                         self.policy.remove(&key); // deals with metrics updates.
+                        #[cfg(transparencies_stretto_verif)]
+                        crate::verif::yield_point("del_store");
                         if let Some(sitem) = self.store.try_remove(&key, conflict)? {
                             self.callback.on_exit(Some(sitem.value.into_inner()));
                         }
@@ -466,6 +476,8 @@ macro_rules! impl_cache_processor {
                     }
                     $item::Wait(wg) => {
                         wg.done();
+                        #[cfg(transparencies_stretto_verif)]
+                        crate::verif::emit(|| crate::verif::Event::WaitDone);
                         Ok(())
                     }
                 }
@@ -540,6 +552,8 @@ macro_rules! impl_async_cache {
                 if self.is_closed.load(Ordering::SeqCst) {
                     return None;
                 }
+                #[cfg(transparencies_stretto_verif)]
+                crate::verif::yield_point("open_checked");
 
                 let (index, conflict) = self.key_to_hash.build_key(key);
 
@@ -567,6 +581,8 @@ macro_rules! impl_async_cache {
                 if self.is_closed.load(Ordering::SeqCst) {
                     return None;
                 }
+                #[cfg(transparencies_stretto_verif)]
+                crate::verif::yield_point("open_checked");
 
                 let (index, conflict) = self.key_to_hash.build_key(key);
 
@@ -741,6 +757,8 @@ macro_rules! impl_cache_cleaner {
                     $item::Delete { .. } | $item::Update { .. } => {}
                     $item::Wait(wg) => {
                         let _ = wg.done();
+                        #[cfg(transparencies_stretto_verif)]
+                        crate::verif::emit(|| crate::verif::Event::WaitDone);
                     }
                 }
             }
@@ -761,6 +779,10 @@ mod sync;
 #[cfg(feature = "sync")]
 #[cfg_attr(docsrs, doc(cfg(feature = "sync")))]
 pub use sync::{Cache, CacheBuilder};
+#[cfg(all(transparencies_stretto_verif, feature = "sync"))]
+pub(crate) mod sync_verif {
+    pub(crate) use super::sync::CacheProcessor as Proc;
+}
 
 #[cfg(feature = "async")]
 #[cfg_attr(docsrs, doc(cfg(feature = "async")))]
@@ -768,6 +790,10 @@ mod r#async;
 #[cfg(feature = "async")]
 #[cfg_attr(docsrs, doc(cfg(feature = "async")))]
 pub use r#async::{AsyncCache, AsyncCacheBuilder};
+#[cfg(all(transparencies_stretto_verif, feature = "async"))]
+pub(crate) mod async_verif {
+    pub(crate) use super::r#async::CacheProcessor as AProc;
+}
 
 // TODO: find the optimal value for this
 const DEFAULT_INSERT_BUF_SIZE: usize = 32 * 1024;
